@@ -40,7 +40,7 @@ def main():
             checks = {}
             for pid in meta['checks_to_run']:
                 t0 = time.time()
-                c = sh(f'cd {ROOT} && ./check {pid} quick --no-selfcheck', timeout=7200)
+                c = sh(f'cd {ROOT} && VERIF_REPO=/repo ./check {pid} quick --no-selfcheck', timeout=7200)   # VERIF_REPO set: evidence/<id>.json is left alone
                 viol = re.findall(r'^VIOLATION property=\S+ replay=.*/([^/]+)\.json$', c.stdout, re.M)
                 harnesses = sorted({re.sub(r'-[0-9a-f]{10}$', '', v).split('-', 1)[1] for v in viol})
                 checks[pid] = {'cmd': f'./check {pid} quick --no-selfcheck', 'exit': c.returncode, 'violating_harnesses': harnesses,
